@@ -84,6 +84,30 @@ def real_decoder(s, compat=False, attribute=False):
         return "err\t" + exc_name(e)
 
 
+def real_decode_graph(s, compat=False):
+    """the MolecularGraph the real decoder builds for `s` (its own functions, called as `decoder()` calls them);
+    None if the internals are not callable this way (refactored) or the string is rejected"""
+    try:
+        import importlib
+        D = importlib.import_module("selfies.decoder")      # (`selfies.decoder` the attribute is the function)
+        MolecularGraph = importlib.import_module("selfies.mol_graph").MolecularGraph
+        mol = MolecularGraph(attributable=False)
+        rings = []
+        for frag in s.split("."):
+            D._derive_mol_from_symbols(
+                symbol_iter=enumerate(D._tokenize_selfies(frag, compat)), mol=mol, selfies=s,
+                max_derive=float("inf"), init_state=0, root_atom=None, rings=rings,
+                attribute_stack=None, attribution_index=0)
+        D._form_rings_bilocally(mol, rings)
+        return mol
+    except Exception:
+        return None
+
+
+def ring_bond_count(mol):
+    return sum(1 for (a, b), bond in mol._bond_dict.items() if bond.ring_bond and a < b)
+
+
 def real_encoder(s, strict=True, attribute=False):
     """returns (wire result, tape)"""
     del TAPE[:]
